@@ -82,10 +82,34 @@ CHECKS["C05"] = {
             "is indented, or it directly follows an entry line; distinct by construction",
     "deadline": {"quick": 100, "thorough": 1200},
     "parts": [
-        {"name": "insert", "harness": "c05", "variant": "asan", "quick": ["--p0", 2, "--p1", 3], "thorough": ["--p0", 2, "--p1", 4],
+        {"name": "insert", "harness": "c05", "variant": "asan", "quick": ["--p0", 2, "--p1", 3, "--p2", 4], "thorough": ["--p0", 2, "--p1", 4, "--p2", 6],
          "deadline_share": 0.6, "floor": {"quick": 100000, "thorough": 1000000}},
         {"name": "insert-3lines", "harness": "c05", "variant": "asan", "tiers": ["thorough"], "thorough": ["--p0", 3, "--p1", 3],
          "deadline_share": 0.4, "floor": {"thorough": 1000000}},
     ],
     "assumptions": ["base files use one representative token per line kind; the neighbourhood of the inserted line (kind of previous/next line) is what the parser's comment and continuation logic depends on"],
+}
+
+CHECKS["C04"] = {
+    "engine": "E1",
+    "technique": "bounded exhaustive enumeration of ALL byte strings / line sequences over a structural alphabet as file content, real read/query/write/merge code with sanitizers as oracle",
+    "level_text": "every byte string up to length n over {NL, blank, TAB, =, #, ;, quote, [, ], letter, NUL, 0xE9, backslash} and every file of up to m lines "
+                  "over ~48 adversarial lines (incl. 9000-byte lines) is read under all 63 delimiter x comment x option configurations; every successful "
+                  "object goes through every listing, typed/defaulted/extended getter, write + re-read; all ordered pairs of distinct object shapes are merged; "
+                  "oracle = termination, documented return code, no ASan/UBSan report",
+    "level_note": "bounded: n<=4 all configurations / n<=5 core configurations, m<=2 / 3 (quick); n<=5 / 6, m<=3 / 4 (thorough); merge pairs over the shapes "
+                  "reachable from the bounded inputs; trusted: gcc ASan+UBSan, the shape abstraction (merge looks only at equal group names, equal keys, NULL values)",
+    "rule": "case = (configuration, content); non-trivial = the read succeeded and the object was exercised; distinct by construction; merge part: ordered pairs "
+            "of objects with distinct listing shapes (groups/keys renamed by first occurrence, NULL-ness of values, empty sections)",
+    "deadline": {"quick": 110, "thorough": 1500},
+    "parts": [
+        {"name": "bytes", "harness": "c04", "variant": "asan", "quick": ["--p0", 0, "--p1", 4, "--p2", 5], "thorough": ["--p0", 0, "--p1", 5, "--p2", 6],
+         "deadline_share": 0.4, "floor": {"quick": 100000, "thorough": 1000000}},
+        {"name": "lines", "harness": "c04", "variant": "asan", "quick": ["--p0", 1, "--p1", 2, "--p2", 3], "thorough": ["--p0", 1, "--p1", 3, "--p2", 4],
+         "deadline_share": 0.4, "floor": {"quick": 50000, "thorough": 1000000}},
+        {"name": "mergepairs", "harness": "c04", "variant": "asan", "quick": ["--p0", 2, "--p1", 3, "--p2", 4], "thorough": ["--p0", 2, "--p1", 4, "--p2", 6],
+         "deadline_share": 0.2, "floor": {"quick": 1000, "thorough": 10000}},
+    ],
+    "assumptions": ["bytes outside the 13-symbol structural alphabet behave like one of its members (letter / 8-bit byte)",
+                    "allocation failure is not injected"],
 }
